@@ -44,7 +44,7 @@ def run_c16(ctx):
                 "in a child process; missing / unknown keys; seed strings of wrong length or alphabet; whole configurations: "
                 "product of per-setting classes x client_stats x persistence directory state (none/good/read-only/file/missing); non-trivial = "
                 "distinct (source, key, value) with the value outside the narrow type's range or at a documented bound")
-    vlib.prepare(ctx)
+    vlib.prepare(ctx, need_bins=True)
     grid = [-70000, -256, -1, 0, 1, 2, 32, 49, 50, 51, 63, 64, 65, 100, 254, 255, 256, 257, 300, 1000, 8686, 65534, 65535,
             65536, 65537, 70000, 2**31 - 1, 2**31, 2**32 - 1, 2**32, 2**32 + 1, 2**63 - 1]
     base = [("interface", "127.0.0.1"), ("port", 8686), ("seed", SEED)]
@@ -99,6 +99,14 @@ def run_c16(ctx):
         extra.append((src, base + [("client_stats", "on")], "REFUSED", "client_stats without persistence_directory"))
         extra.append((src, base + [("client_stats", "on"), ("persistence_directory", workdir)], "RUN", "client_stats with directory"))
         extra.append((src, base + [("client_stats", "off")], "RUN", "client_stats off"))
+        # the documented spellings are matched case-insensitively, in BOTH sources alike
+        for v in ("ON", "On", "oN", "YES", "Yes", "yEs"):
+            extra.append((src, base + [("client_stats", v)], "REFUSED", "client_stats %s without persistence_directory" % v))
+            extra.append((src, base + [("client_stats", v), ("persistence_directory", workdir)], "RUN", "client_stats %s with directory" % v))
+        # (bare `true` / `1` are not strings in YAML: the file source refuses them with a panic, which is
+        #  a refusal, not a silent replacement; they are left out so that both sources see the same string)
+        for v in ("OFF", "No", "no", "enabled", "y"):
+            extra.append((src, base + [("client_stats", v)], "RUN", "client_stats %s (not an enabling spelling)" % v))
         extra.append((src, base + [("kms_protection", "plaintext")], "RUN", "plaintext kms"))
         extra.append((src, base + [("interface", "not an address")][-1:] + [b for b in base if b[0] != "interface"], "REFUSED", "bad interface"))
     extra.append(("File", base + [("bogus_key", 1)], "REFUSED", "unknown key"))
@@ -114,10 +122,35 @@ def run_c16(ctx):
         else:
             ctx.nontriv("extra:%s:%s" % (src, why))
     whole_config_grid(ctx, workdir)
+    running_server_uses_written_values(ctx, workdir)
     import shutil
     subprocess.run(["chmod", "-R", "u+w", workdir])
     shutil.rmtree(workdir, ignore_errors=True)
     proof_verdict(ctx)
+
+
+def running_server_uses_written_values(ctx, workdir):
+    """the value the server RUNS with is the value written: the real binary is started from both sources
+    with num_workers = 1 and = (number of cores + 3) and its worker threads are counted"""
+    from props import process as procmod
+    ncpu = os.cpu_count() or 4
+    for src in ("file", "env"):
+        for nw in (1, ncpu + 3):
+            srv = procmod.Server({"num_workers": nw}, source=src, workdir=workdir)
+            rep = {"cmd": "config-run", "source": src, "num_workers": nw}
+            try:
+                ready = srv.wait_ready()
+                workers = sorted({t for t in srv.threads() if t.startswith("worker-")})
+                ctx.evaluations += 1
+                if not ready:
+                    ctx.violation("property", "server with num_workers=%d (%s) did not start serving" % (nw, src), dict(rep, log=srv.log()[-800:]))
+                elif len(workers) != nw:
+                    ctx.violation("property", "num_workers=%d written (%s) but the server runs %d worker threads" % (nw, src, len(workers)),
+                                  dict(rep, workers=workers))
+                else:
+                    ctx.nontriv("run:%s:%d" % (src, nw))
+            finally:
+                srv.stop()
 
 
 def whole_config_grid(ctx, workdir):
